@@ -117,7 +117,7 @@ func seqJobList(prop, tier string) []*SeqJob {
 	case "C05":
 		// (programs that share one sanitizing root: a derivation that is handed another identity's scope delivers under
 		// that identity - the C04 job is judged here as well)
-		return append(c05Jobs(tier), tagChainSweep("C05", "size-sweep-tag-chain", tier, false), borrow("C05", c04SharedRootJob(tier)))
+		return append(c05Jobs(tier), tagChainSweep("C05", "size-sweep-tag-chain", tier, false), borrow("C05", c04SharedRootJob(tier)), c05PokedJob(tier))
 	case "C10":
 		return append(c10Jobs(tier), bothReportersJob("C10", tier))
 	case "C11":
